@@ -13,7 +13,7 @@
    and l1 after.  [eser] is the never re-used serial number of one registration ("the timer");
    [earm e] is the time e was registered or last re-armed, [enext e] its deadline (m_next). *)
 From OlaBase Require Import Bytes.
-From C16 Require Import Model Proofs Invariant Invariant2 Timers Due PModel PProofs PClose PAgree PAgreeW PHaz PWf PLive.
+From C16 Require Import Model Proofs Invariant Invariant2 Timers Due PModel PProofs PClose PAgree PAgreeW PHaz PWf PLive PAbs PSimS PSimE PSim.
 Local Open Scope N_scope.
 
 Definition allocator_ok (alloc : list N -> N -> N) : Prop :=
@@ -290,6 +290,68 @@ Proof.
   - vm_compute. eexists. split. left. reflexivity. reflexivity.
 Qed.
 
+(* BOTH POLLER BACK-ENDS DELIVER, PER DESCRIPTOR, THE SAME CALLBACKS AND THE SAME BYTES.
+   For every configuration c of scripted descriptors, every operation sequence ops (add/remove read|write, peer
+   writes, peer closes, Poll with ascending or descending epoll ready order) and every descriptor d of c, the
+   per-descriptor projection of the callback log (p_proj d: the entries of d, in order, each with its kind, the
+   bytes delivered, the operation during which it ran and the ghost registration flag) of the EPoller model
+   equals that of the SelectPoller model - the order in which the two back-ends serve DIFFERENT descriptors is
+   irrelevant by construction.  Guards, boolean functions of the configuration / operation list:
+   p_cfg_ok c: for every descriptor x of c
+     G1  every scripted callback action of x is aimed at x itself (a callback may add/remove its own read and
+         write side; with actions aimed at other descriptors the back-ends legitimately differ, because they serve
+         ready descriptors in different orders);
+     G2  x is not delete_on_close (EPoller never deletes such a descriptor - RemoveDescriptor nulls the pointer
+         before the delete - so operations on it after its close still take effect there);
+     G3  if x is a pipe read end none of its scripts registers it for writing (outside the kernel model);
+     G4  neither the read script nor the close script of x contains all three of RemoveRead, RemoveWrite and
+         AddWrite (such a callback makes EPoller recycle the EPollData in the middle of its own event and the write
+         callback of that iteration is skipped on epoll but not on select: proposed finding
+         C16-epoll-write-skipped-after-reregister; any two of the three are fine);
+   p_ops_ok c ops: no top-level AddWrite on a pipe read end (G3).
+   Proof: both models refine one single-descriptor abstract machine (PAbs.l_run), per descriptor. *)
+Theorem c16_backends_agree :
+  forall (c : p_cfg) (ops : list p_op) (d : nat),
+    p_cfg_ok c = true -> p_ops_ok c ops = true -> d < length c ->
+    p_proj d (p_log (p_run true c ops)) = p_proj d (p_log (p_run false c ops)).
+Proof. exact p_backends_agree. Qed.
+Print Assumptions c16_backends_agree.
+
+(* ... and both equal the run of the single-descriptor abstract machine (what "the callbacks of d" are). *)
+Theorem c16_backends_refine_abstract :
+  forall (c : p_cfg) (ops : list p_op) (d : nat) (be : bool),
+    p_cfg_ok c = true -> p_ops_ok c ops = true -> d < length c ->
+    p_proj d (p_log (p_run be c ops)) = rev (a_log (l_run c d 0 (l_init c d) ops)).
+Proof. exact p_backends_refine. Qed.
+Print Assumptions c16_backends_refine_abstract.
+
+(* The guards are satisfiable by a scenario with: data followed by hang-up on a connected socket that also has
+   a write registration made from its own read callback, a descriptor that removes and re-adds itself inside its
+   own callback, and a plain pipe; the callbacks really run (non-vacuous) and the two logs agree. *)
+Example c16_backends_agree_guard_satisfiable :
+  let c := [Build_p_dcfg PSock true false 2 [PAAddW 0] [PARemW 0] [PARemR 0];
+            Build_p_dcfg PSock false false 9 [PARemR 1; PAAddR 1] [] [];
+            Build_p_dcfg PPipe true false 1 [] [] []] in
+  let ops := [POAddR 0; POAddR 1; POAddR 2; POAddW 1; POWrite 0 [1%N; 2%N; 3%N]; POWrite 1 [7%N];
+              POWrite 2 [8%N; 9%N]; POClosePeer 0; POClosePeer 2; POPoll true; POPoll false; POPoll true; POPoll false] in
+  p_cfg_ok c = true /\ p_ops_ok c ops = true /\
+  map (fun e => (le_kind e, le_bytes e)) (p_proj 0 (p_log (p_run true c ops))) =
+    [(PKRead, [1%N; 2%N]); (PKRead, [3%N]); (PKWrite, []); (PKClose, [])] /\
+  length (p_proj 1 (p_log (p_run true c ops))) = 5 /\
+  map (fun e => (le_kind e, le_bytes e)) (p_proj 2 (p_log (p_run false c ops))) =
+    [(PKRead, [8%N]); (PKRead, [9%N]); (PKClose, [])].
+Proof. vm_compute. repeat split; reflexivity. Qed.
+
+(* G4 cannot simply be dropped: the smallest counterexample (also reproduced on the real pollers) *)
+Example c16_backends_agree_needs_g4 :
+  let c := [Build_p_dcfg PSock false false 9 [PARemW 0; PARemR 0; PAAddW 0] [] []] in
+  let ops := [POAddR 0; POAddW 0; POWrite 0 [1%N]; POPoll false; POPoll false] in
+  p_cfg_ok c = false /\
+  map (fun e => (le_op e, le_kind e)) (p_proj 0 (p_log (p_run true c ops))) = [(3, PKRead); (4, PKWrite)] /\
+  map (fun e => (le_op e, le_kind e)) (p_proj 0 (p_log (p_run false c ops))) = [(3, PKRead); (3, PKWrite); (4, PKWrite)].
+Proof. vm_compute. repeat split; reflexivity. Qed.
+
+(* Sanity checks kept from earlier rounds (bounded, by exhaustive evaluation): *)
 (* Both back-ends deliver, per descriptor, the same callbacks and the same bytes — proved here ONLY on a
    bounded domain by exhaustive evaluation (hence _bounded_partial): one descriptor (pipe or socket, plain
    or connected, read size 0/1/9, callbacks without scripted add/remove), all sequences of at most 5
